@@ -770,6 +770,81 @@ func (a *anchors) resultProvenance(q *query, loopOf map[*ssau.Loop]*indexLoop, m
 				}
 			}
 			return "?a result slice is loaded from " + q.tm.of(x).String()
+		case *ssa.Parameter:
+			// accumulator handed down the recursion: inside the query it is the query's own running result; every
+			// other caller must start it empty (nil, make([]int, 0), buf[:0])
+			idx := -1
+			for i, p := range fn.Params {
+				if p == x {
+					idx = i
+				}
+			}
+			sites := 0
+			bad := ""
+			for _, g := range a.fns {
+				ssau.AllInstrs(g, func(in ssa.Instruction) {
+					call, ok := in.(ssa.CallInstruction)
+					if !ok || call.Common().StaticCallee() != fn || idx < 0 || idx >= len(call.Common().Args) {
+						return
+					}
+					sites++
+					arg := call.Common().Args[idx]
+					if g == fn {
+						// the recursive call continues the running result: every value it can be handed is the
+						// accumulator itself, extended by appends or by earlier recursive calls — never a fresh slice
+						// (which would drop what was collected so far)
+						chain := []ssa.Value{arg}
+						cseen := map[ssa.Value]bool{}
+						for len(chain) > 0 {
+							y := chain[len(chain)-1]
+							chain = chain[:len(chain)-1]
+							if cseen[y] {
+								continue
+							}
+							cseen[y] = true
+							switch z := y.(type) {
+							case *ssa.Parameter:
+								if z != x && bad == "" {
+									bad = "!the recursive call is handed " + q.tm.of(z).String() + ", not the running result"
+								}
+							case *ssa.Phi:
+								chain = append(chain, z.Edges...)
+							case *ssa.Call:
+								if base, _, _, ok := appendedValues(z); ok {
+									chain = append(chain, base)
+								} else if z.Common().StaticCallee() != fn && bad == "" {
+									bad = "!the recursive call is handed " + q.tm.of(z).String() + ", not the running result"
+								}
+							default:
+								if bad == "" {
+									bad = "!the recursive call restarts the result (" + q.tm.of(y).String() + "): the indices collected so far are dropped"
+								}
+							}
+						}
+						work = append(work, arg)
+						return
+					}
+					empty := isNilConst(arg)
+					if ms, ok := arg.(*ssa.MakeSlice); ok && isConstInt(ms.Len, 0) {
+						empty = true
+					}
+					if sl, ok := arg.(*ssa.Slice); ok && sl.High != nil && isConstInt(sl.High, 0) {
+						empty = true
+					}
+					if !empty && bad == "" {
+						bad = "the accumulator " + g.Name() + " hands to " + fn.Name() + " is not empty (nil, make([]int, 0) or buf[:0]): " + q.tm.of(arg).String()
+					}
+				})
+			}
+			if sites == 0 || idx < 0 {
+				return "?a result slice is produced by " + q.tm.of(v).String() + " and no caller in the package was found"
+			}
+			if strings.HasPrefix(bad, "!") {
+				return bad[1:]
+			}
+			if bad != "" {
+				return "?" + bad
+			}
 		default:
 			return "?a result slice is produced by " + q.tm.of(v).String()
 		}
